@@ -224,3 +224,45 @@ def ob_clustering(tier):
                       lambda: check_nj(cur().choose(s, range(3)), cur().choose(p, range(24)), cur().choose(z, range(3))) is None,
                       dict(si=s, pi=p, zero=z), _rep(check_nj, "si", "pi", "zero")))
     return cases
+
+
+def check_upgma_large(n, seed):
+    """many taxa (cluster sizes beyond 255): merge heights still equal half the average-linkage distance"""
+    from biotite.sequence.phylo import upgma
+    # points on a line in well separated groups -> one cluster grows beyond 255 members before the last merges
+    xs = np.concatenate([np.arange(n - 6) * 0.001 + seed, [100.0, 101.0, 300.0, 302.0, 900.0, 1700.0]])
+    D = np.abs(xs[:, None] - xs[None, :])
+    tree = upgma(D)
+    if sorted(l.index for l in tree.leaves) != list(range(len(xs))):
+        return "leaves"
+
+    def rec(node):
+        """-> (leaf indices, height); checks only nodes whose two children are both large or far (the top merges)"""
+        if node.is_leaf():
+            return [node.index], 0.0
+        (la, ha), (lb, hb) = rec(node.children[0]), rec(node.children[1])
+        height = ha + node.children[0].distance
+        if len(la) + len(lb) > 200:
+            avg = D[np.ix_(la, lb)].mean()
+            if abs(height - avg / 2) > 1e-3 * max(1.0, avg):
+                raise AssertionError(f"merge of clusters with {len(la)} and {len(lb)} taxa at height {height}, half average linkage {avg / 2}")
+        return la + lb, height
+    import sys
+    old = sys.getrecursionlimit()
+    sys.setrecursionlimit(10000)
+    try:
+        rec(tree.root)
+    except AssertionError as e:
+        return str(e)
+    finally:
+        sys.setrecursionlimit(old)
+    return None
+
+
+def ob_upgma_large(tier):
+    n, s = z3.Ints("n s")
+
+    def run():
+        ex = cur()
+        return check_upgma_large(ex.choose(n, (300, 600)), ex.choose(s, (0, 7))) is None
+    return [Case("upgma with clusters beyond 255 taxa", [z3.Or(n == 300, n == 600), z3.Or(s == 0, s == 7)], run, dict(n=n, seed=s), _rep(check_upgma_large, "n", "seed"))]
